@@ -15,3 +15,4 @@ from . import pickling  # noqa: F401
 from . import declaration  # noqa: F401
 from . import dispatcher  # noqa: F401
 from . import adapters  # noqa: F401
+from . import registration  # noqa: F401
